@@ -264,6 +264,73 @@ def judgeJoin (toks : List String) (out : List String) : String :=
     | _, _, _, _ => "bad unparsable-impl-output"
   | _, _ => "bad unparsable-impl-output"
 
+/-! ### cli ops: whole-engine traces written by the real binary (`VERIF_JSON_TRACE`)
+
+op   `cli <GOMAXPROCS> <query> <rows> d<seed> x<expected exit code>`
+impl `exit=<code> | <event>…` — run ids of the process as pipe numbers.
+The inputs of the pipes are not in the op (the engine decides which files are read, with which LIMITs): they are
+inferred from the log — lines = what the reader reported in its `rwrite`s (+1 if it was seen at a further select),
+the failing produce call from `cstop`, malformed lines from `cerr`, the scanner error from `cdone 1`. The process exits
+when the query is answered, so the log must be a path but need not end in a final state; cancellations of the parent
+context (by a join that returned) are not logged and are inserted where a `ctx.Done` branch was taken. -/
+
+def sumWrites (evs : List Ev) (p : Nat) : Nat :=
+  evs.foldl (fun acc e => if e.kind = "rwrite" ∧ e.pipe = p then acc + e.n else acc) 0
+
+/-- did the reader of `p` reach a select again after its last `rwrite`? -/
+def pendingBatch (evs : List Ev) (p : Nat) : Bool :=
+  let r := evs.foldl (fun (st : Bool) e =>
+    if e.pipe = p then
+      if e.kind = "rwrite" then false
+      else if e.kind = "rtok" ∨ e.kind = "rstop" then true
+      else st
+    else st) false
+  r
+
+def inferPipe (evs : List Ev) (p : Nat) : Pipe :=
+  let lines := sumWrites evs p + (if pendingBatch evs p then 1 else 0)
+  let stop := (evs.find? (fun e => e.kind = "cstop" ∧ e.pipe = p)).map (fun e => e.n + 1)
+  let bad := (evs.filter (fun e => e.kind = "cerr" ∧ e.pipe = p)).map (·.n)
+  let se := evs.any (fun e => e.kind = "cdone" ∧ e.pipe = p ∧ e.n = 1)
+  Pipe.init lines Octo.Gen.JsonPipe.batchSize se bad stop
+
+def needsCancel (k : String) : Bool := k = "cctx" || k = "rstop" || k = "wdrop"
+
+def replayCli (sent : List (Nat × Nat × Nat)) : State → List Ev → Nat → Except String State
+  | s, [], _ => .ok s
+  | s, e :: es, i =>
+    let s1 :=
+      if needsCancel e.kind ∧ (s.pipe e.pipe).cancelled = false then (step s (.pCancel e.pipe)).getD s else s
+    match applyEv sent s1 e es with
+    | .ok s' => replayCli sent s' es (i + 1)
+    | .error why => .error s!"{why} at-event {i} {e.kind},{e.pipe},{e.wid},{e.n}"
+
+def cliExpected (toks : List String) : String :=
+  match toks with
+  | "cli" :: _ :: _ :: _ :: _ :: x :: _ => "exit=" ++ (x.drop 1).toString
+  | _ => "bad-op"
+
+def judgeCli (toks : List String) (out : List String) : String :=
+  match toks with
+  | "cli" :: gmp :: _ =>
+    let (summ, evToks) := splitBar out
+    match summ with
+    | "timeout" :: _ => "bad non-termination (the query did not end)"
+    | "crash" :: _ => "bad crash"
+    | [ex] =>
+      if ex ≠ cliExpected toks then "bad unexpected-exit-code expected " ++ cliExpected toks
+      else match evToks.mapM parseEv, gmp.toNat? with
+        | some evs, some nw =>
+          let np := evs.foldl (fun acc e => max acc (e.pipe + 1)) 0
+          let s0 := State.init nw ((List.range np).map (inferPipe evs))
+          let sent := evs.filterMap (fun e => if e.kind = "wsent" then some (e.wid, e.pipe, e.n) else none)
+          match replayCli sent s0 evs 0 with
+          | .error why => "bad trace-is-not-a-path " ++ why
+          | .ok _ => "ok"
+        | _, _ => "bad unparsable-trace"
+    | _ => "bad unparsable-impl-output"
+  | _ => "bad unparsable-op"
+
 /-! ### race ops (violation search only): `race <GOMAXPROCS> <query> <rows> d<seed> x<expected exit code>` -/
 
 def raceExpected (toks : List String) : String :=
@@ -282,6 +349,7 @@ def judgeRace (toks : List String) (out : List String) : String :=
 def judge (toks : List String) (out : List String) : String :=
   match toks with
   | "race" :: _ => judgeRace toks out
+  | "cli" :: _ => judgeCli toks out
   | "join" :: _ => judgeJoin toks out
   | "json" :: _ =>
     match parseOp toks with
@@ -308,6 +376,7 @@ def model (toks : List String) : String :=
   match toks with
   | "join" :: _ => modelJoin toks
   | "race" :: _ => raceExpected toks
+  | "cli" :: _ => cliExpected toks
   | _ => modelJson toks
 
 end Octo.Drv.C29
